@@ -407,6 +407,61 @@ theorem set_refines (inj : injector) (hw : WfI inj) (t : Ty) (v : Int) (hv : 0 <
     simp only [hb, Bool.false_eq_true, if_false]
     rw [lookup_register_ne _ _ _ _ (fun e => ht e.symm), lookup_of_nodup _ (by rw [scope_keys]; exact hw.nodup)]
 
+/-! ### `Map` -/
+
+/-- the loop of `Map`, in closed form: `Set(TypeOf(v), ValueOf(v))` for each value, in the order given -/
+theorem map_closed (tyOf : Any → Lib.Ty) (inj : injector) (vals : List Any) :
+    (Map tyOf inj vals).2 = vals.foldl (fun i v => (Set i (tyOf v) (Lib.reflect_ValueOf v)).2) inj := by
+  simp only [Map, GoSem.enum]
+  suffices h : ∀ (n : Nat) (i : injector),
+      (GoSem.forRangeCtl (ρ := Unit) ((vals.zipIdx n).map fun p => ((p.2 : Int), p.1))
+        (fun (_, val) inj =>
+          let inj := { inj with values := GoSem.mapSet inj.values (tyOf val) (Lib.reflect_ValueOf val) };
+          (GoSem.Ctl.next, inj)) i).2
+        = vals.foldl (fun i v => (Set i (tyOf v) (Lib.reflect_ValueOf v)).2) i by
+    exact h 0 inj
+  induction vals with
+  | nil => intro n i; rfl
+  | cons v vs ih =>
+    intro n i
+    simp only [List.zipIdx_cons, List.map_cons, GoSem.forRangeCtl, List.foldl_cons]
+    exact ih (n + 1) _
+
+theorem lookup_register_congr (s₁ s₂ : Scope) (h : ∀ t, lookup s₁ t = lookup s₂ t) (k : Ty) (v : Val) :
+    ∀ t, lookup (register s₁ k v) t = lookup (register s₂ k v) t := by
+  intro t
+  by_cases e : t = k
+  · subst e; rw [lookup_register_same, lookup_register_same]
+  · rw [lookup_register_ne _ _ _ _ e, lookup_register_ne _ _ _ _ e]; exact h t
+
+/-- two logs that agree on every lookup still do after the same registrations -/
+theorem foldl_register_congr (tyOf : Any → Lib.Ty) (vs : List Any) (s₁ s₂ : Scope)
+    (h : ∀ t, lookup s₁ t = lookup s₂ t) :
+    ∀ t, lookup (vs.foldl (fun s v => register s (tyOf v) v.toNat) s₁) t
+       = lookup (vs.foldl (fun s v => register s (tyOf v) v.toNat) s₂) t := by
+  induction vs generalizing s₁ s₂ with
+  | nil => exact h
+  | cons x xs ih =>
+    simp only [List.foldl_cons]
+    exact ih _ _ (lookup_register_congr s₁ s₂ h (tyOf x) x.toNat)
+
+/-- `Map(v₁ … vₙ)` is the model's `register`, one after the other: every valid value is found under its own type
+afterwards unless a later one of the same type replaced it (`map_last_wins` of Props/C04 is about exactly this log) -/
+theorem map_refines (tyOf : Any → Lib.Ty) (inj : injector) (hw : WfI inj) (vals : List Any) (hv : ∀ v ∈ vals, 0 < v) :
+    WfI (Map tyOf inj vals).2 ∧ (Map tyOf inj vals).2.parent = inj.parent
+      ∧ ∀ t', lookup (scopeOf (Map tyOf inj vals).2) t'
+            = lookup (vals.foldl (fun s v => register s (tyOf v) v.toNat) (scopeOf inj)) t' := by
+  rw [map_closed]
+  induction vals generalizing inj with
+  | nil => exact ⟨hw, rfl, fun _ => rfl⟩
+  | cons v vs ih =>
+    obtain ⟨h1, h2, h3⟩ := set_refines inj hw (tyOf v) (Lib.reflect_ValueOf v) (hv v (by simp))
+    obtain ⟨i1, i2, i3⟩ := ih (Set inj (tyOf v) (Lib.reflect_ValueOf v)).2 h1 (fun x hx => hv x (by simp [hx]))
+    refine ⟨i1, i2.trans h2, ?_⟩
+    intro t'
+    rw [List.foldl_cons, List.foldl_cons, i3 t']
+    exact foldl_register_congr tyOf vs _ _ h3 t'
+
 /-! ### the definitions compute -/
 
 def demoU : Universe := { isInterface := fun t => t == 9, implements := fun k t => t == 9 && k == 2 }
